@@ -484,12 +484,19 @@ func (af *AdaptationField) SetHasTransportPrivateData(value bool) error {
 	if err := af.valid(); err != nil {
 		return err
 	}
-	delta := 1 * af.bitDelta(5, 0x02, value)
-	err := af.resizeAF(af.transportPrivateDataStart(), delta)
-	if err != nil {
+	if value == af.hasTransportPrivateData() {
+		return nil // nothing to add or remove
+	}
+	start := af.transportPrivateDataStart()
+	if value {
+		if err := af.resizeAF(start, 1); err != nil {
+			return err
+		}
+		af[start] = 0 // zero length by default
+	} else if err := af.resizeAF(start, -af.transportPrivateDataLength()); err != nil {
+		// the length byte is removed together with the data
 		return err
 	}
-	af[af.transportPrivateDataStart()] = 0 // zero length by default
 	af.setBit(5, 0x02, value)
 	return nil
 }
@@ -542,12 +549,19 @@ func (af *AdaptationField) SetHasAdaptationFieldExtension(value bool) error {
 	if err := af.valid(); err != nil {
 		return err
 	}
-	delta := 1 * af.bitDelta(5, 0x01, value)
-	err := af.resizeAF(af.adaptationExtensionStart(), delta)
-	if err != nil {
+	if value == af.hasAdaptationFieldExtension() {
+		return nil // nothing to add or remove
+	}
+	start := af.adaptationExtensionStart()
+	if value {
+		if err := af.resizeAF(start, 1); err != nil {
+			return err
+		}
+		af[start] = 0 // zero length by default
+	} else if err := af.resizeAF(start, -af.adaptationExtensionLength()); err != nil {
+		// the length byte is removed together with the data
 		return err
 	}
-	af[af.adaptationExtensionStart()] = 0
 	af.setBit(5, 0x01, value)
 	return nil
 }
